@@ -953,6 +953,7 @@ pub fn run(ctx: &mut Ctx) {
             });
         }
     }
+    run_gap(ctx);
 }
 
 fn easy_case(c: &mut Case, target: &str, pool: &[AK], ops: &[Op], f: &Facts, len_each: bool) -> Res {
@@ -967,4 +968,314 @@ fn idx_case(c: &mut Case, target: &str, pool: &[AK], ops: &[Op], xo: &XO) -> Res
     let m = if target == "goldidx/new" { let cap = *c.rng.pick(&[0usize, 1, 16, 17, 100]); c.input_str("cap", &cap.to_string()); if c.rng.bool() { GoldHashIdx::new() } else { GoldHashIdx::with_capacity(cap) } }
         else { let p = SecureMemoryPool::new(SecurePoolConfig::small_secure()).map_err(|e| bad("ctor_err", format!("SecureMemoryPool::new: {e}")))?; GoldHashIdx::with_pool(*c.rng.pick(&[0usize, 16, 64]), p) };
     exec(c, &mut Idx(m), pool, ops, &XO { iter: false, len_each: xo.len_each })
+}
+
+// =================================================================================================================
+// gap families (x_*, libhash_*, hashfn): API surface of the anchor files that the histories above never call.
+// Oracles: the same model map (alternative constructors, get_or_* / extend, insert_batch / get_batch, FastStr entry points,
+// values(), clear_all, is_empty after every operation), library hash functions used as the caller supplied BuildHasher,
+// and determinism / documented range of the hash helpers (a map needs h(k) to be a function of k).
+// =================================================================================================================
+use zipora::hash_map::{advanced_hash_combine, bmi2_collision_resolution, bmi2_hash_combine_u32, bmi2_hash_combine_u64, extract_bucket_with_bmi2, extract_hash_bucket_bmi2,
+    fabo_hash_combine_u32, fabo_hash_combine_u64, fast_string_hash_bmi2, get_global_bmi2_dispatcher, golden_ratio_next_size, hash_combine_with_bmi2, hash_with_bmi2,
+    optimal_bucket_count, specialized, Bmi2HashDispatcher, CacheAligned, CombineStrategy, HashFunctionBuilder, ProbeType};
+use zipora::FastStr;
+
+const X_FAM: Fam = Fam { name: "x", ks: (2, 48), ops: (150, 500), w: [30, 20, 8, 6, 6, 30], clear_pm: 5, check_every: 15, iter: true, len_each: true, no_upd: false };
+const X_SMALL: Fam = Fam { name: "xsmall", ks: (1, 12), ops: (100, 300), w: [30, 24, 8, 6, 6, 26], clear_pm: 10, check_every: 10, iter: true, len_each: true, no_upd: false };
+
+/// `exec` plus: `xop` interprets Op::Extra (may change map and model together), `probe` runs after every operation
+/// (Err(detail) = violation of class `is_empty`)
+fn exec_x<K: Clone + Ord + Debug, M: Sut<K>>(c: &mut Case, m: &mut M, pool: &[K], ops: &[Op], xo: &XO,
+    xop: &mut dyn FnMut(&mut Case, &mut M, &mut BTreeMap<K, u64>, &[K], usize) -> Res, probe: &dyn Fn(&M, &BTreeMap<K, u64>) -> Result<(), String>) -> Res {
+    let mut model: BTreeMap<K, u64> = BTreeMap::new();
+    for (i, op) in ops.iter().enumerate() {
+        match *op {
+            Op::Ins(ki, v) => { let k = &pool[ki as usize];
+                let got = m.insert(k.clone(), v).map_err(|e| bad("insert_err", format!("op#{i}: insert(k{ki}={k:?}) returned Err({e}) with {} live keys {}", model.len(), render(ops, i))))?;
+                let want = model.insert(k.clone(), v);
+                if m.reports_prev() { c.ev(1); ensure!(got == want, if want.is_some() { "insert_ret_update" } else { "insert_ret_new" }, "op#{i}: insert(k{ki}={k:?},{v}) returned {got:?} want {want:?} {}", render(ops, i)); } }
+            Op::Rem(ki) => { let k = &pool[ki as usize];
+                let got = m.remove(k).map_err(|e| bad("remove_err", format!("op#{i}: remove(k{ki}={k:?}) returned Err({e}) {}", render(ops, i))))?;
+                let want = model.remove(k); c.ev(1);
+                if let Some(cl) = cmp_get("remove", got, want) { return Err(bad(&cl, format!("op#{i}: remove(k{ki}={k:?}) returned {got:?} want {want:?} {}", render(ops, i)))); } }
+            Op::Get(ki) => { let k = &pool[ki as usize]; let got = m.get(k); let want = model.get(k).copied(); c.ev(1);
+                if let Some(cl) = cmp_get("get", got, want) { return Err(bad(&cl, format!("op#{i}: get(k{ki}={k:?})={got:?} want {want:?} {}", render(ops, i)))); } }
+            Op::GetMut(ki, nv) => { let k = &pool[ki as usize];
+                if let Some(got) = m.get_mut_set(k, nv) { let want = model.get(k).copied(); c.ev(1);
+                    if let Some(cl) = cmp_get("get_mut", got, want) { return Err(bad(&cl, format!("op#{i}: get_mut(k{ki}={k:?})={got:?} want {want:?} {}", render(ops, i)))); }
+                    if want.is_some() { model.insert(k.clone(), nv); } } }
+            Op::Has(ki) => { let k = &pool[ki as usize]; let got = m.contains(k); c.ev(1); ensure!(got == model.contains_key(k), "contains", "op#{i}: contains_key(k{ki}={k:?})={got} want {} {}", !got, render(ops, i)); }
+            Op::Clear => { if m.clear() { model.clear(); } }
+            Op::Extra(_) => { c.note("xops", 1); xop(c, m, &mut model, pool, i).map_err(|f| Fail { oracle: f.oracle, detail: format!("op#{i} (extended op): {} {}", f.detail, render(ops, i)) })?; }
+            Op::Check => { full_check(c, m, &model, pool, xo.iter, ops, i)?; }
+        }
+        let l = m.len(); c.ev(2); ensure!(l == model.len(), "len", "op#{i}: len()={l} want {} {}", model.len(), render(ops, i));
+        if let Err(d) = probe(m, &model) { return Err(bad("is_empty", format!("op#{i}: {d} with {} live keys {}", model.len(), render(ops, i)))); }
+    }
+    m.coverage(c);
+    Ok(())
+}
+fn no_xop<K, M>(_c: &mut Case, _m: &mut M, _md: &mut BTreeMap<K, u64>, _p: &[K], _i: usize) -> Res { Ok(()) }
+fn emp(got: bool, want: bool) -> Result<(), String> { if got == want { Ok(()) } else { Err(format!("is_empty()={got} want {want}")) } }
+
+// ---- library hash functions as the caller supplied BuildHasher ---------------------------------------------------
+pub const LIB_KINDS: &[&str] = &["fabo64", "fabo32", "bmi2c64", "bmi2c32", "advanced", "complex", "builder64", "builder32", "faststr", "hashbmi2", "dispatch", "combine_g", "special", "bucket", "bucket_g", "bucket_d"];
+const STRATS: [CombineStrategy; 5] = [CombineStrategy::Addition, CombineStrategy::Xor, CombineStrategy::Fabo, CombineStrategy::Bmi2, CombineStrategy::Advanced];
+#[derive(Clone, Copy, Debug)]
+pub struct LibBuild { kind: u8, rot: u32, strat: u8, bits: u32 }
+pub struct LibHasher { b: LibBuild, bytes: Vec<u8>, words: Vec<u64> }
+impl BuildHasher for LibBuild { type Hasher = LibHasher; fn build_hasher(&self) -> LibHasher { LibHasher { b: *self, bytes: vec![], words: vec![] } } }
+impl Hasher for LibHasher {
+    fn write(&mut self, b: &[u8]) { self.bytes.extend_from_slice(b); for ch in b.chunks(8) { let mut w = [0u8; 8]; w[..ch.len()].copy_from_slice(ch); self.words.push(u64::from_le_bytes(w)); } }
+    fn write_u64(&mut self, v: u64) { self.bytes.extend_from_slice(&v.to_le_bytes()); self.words.push(v); }
+    fn finish(&self) -> u64 { lib_hash(&self.b, &self.bytes, &self.words) }
+}
+fn premix(words: &[u64]) -> u64 { let mut h = 0x9E3779B97F4A7C15u64; for &w in words { h = (h ^ w).wrapping_mul(0xBF58476D1CE4E5B9); h ^= h >> 29; } h }
+fn lib_hash(b: &LibBuild, bytes: &[u8], words: &[u64]) -> u64 {
+    let w0 = words.first().copied().unwrap_or(0); let wl = words.last().copied().unwrap_or(0);
+    match b.kind {
+        0 => words.iter().fold(0u64, |h, &w| fabo_hash_combine_u64(h, w)),
+        1 => words.iter().fold(0u32, |h, &w| fabo_hash_combine_u32(fabo_hash_combine_u32(h, w as u32), (w >> 32) as u32)) as u64,
+        2 => words.iter().fold(0u64, |h, &w| bmi2_hash_combine_u64(h, w)),
+        3 => words.iter().fold(0u32, |h, &w| bmi2_hash_combine_u32(bmi2_hash_combine_u32(h, w as u32), (w >> 32) as u32)) as u64,
+        4 => advanced_hash_combine(words),
+        5 => specialized::hash_complex_key_bmi2(words),
+        6 => { let f = HashFunctionBuilder::new().with_rotation(b.rot).with_strategy(STRATS[b.strat as usize % 5]).build_u64(); words.iter().fold(0u64, |h, &w| f(h, w)) }
+        7 => { let f = HashFunctionBuilder::new().with_rotation(b.rot).with_strategy(STRATS[b.strat as usize % 5]).build_u32(); words.iter().fold(0u32, |h, &w| f(f(h, w as u32), (w >> 32) as u32)) as u64 }
+        8 => fast_string_hash_bmi2(&String::from_utf8_lossy(bytes), b.rot as u64),
+        9 => hash_with_bmi2(bytes),
+        10 => { let d = Bmi2HashDispatcher::new(); let h = d.hash_with_acceleration(bytes); d.hash_combine_optimal(h, words.len() as u64) }
+        11 => words.iter().fold(0u64, |h, &w| hash_combine_with_bmi2(h, w)),
+        12 => specialized::hash_integer_bmi2(w0) ^ specialized::hash_tuple_bmi2(w0 as u32, wl as u32).rotate_left(7) ^ specialized::hash_float_bmi2(f64::from_bits(wl)).rotate_left(13) ^ specialized::hash_string_bmi2(&String::from_utf8_lossy(bytes)),
+        13 => extract_hash_bucket_bmi2(premix(words), b.bits) as u64,
+        14 => extract_bucket_with_bmi2(premix(words), b.bits) as u64,
+        _ => get_global_bmi2_dispatcher().extract_bucket_optimal(premix(words), b.bits) as u64,
+    }
+}
+fn lib_build(r: &mut Rng, kind: usize) -> LibBuild { LibBuild { kind: kind as u8, rot: *r.pick(&[0u32, 1, 5, 13, 31]), strat: r.below(5) as u8, bits: *r.pick(&[1u32, 2, 4, 8, 12, 16]) } }
+
+fn zhm_lib_case<K: Hash + Eq + Clone + Ord + Debug>(c: &mut Case, target: &str, kind: usize, strkeys_bytes: Vec<u8>, pool: Vec<K>, ops: Vec<Op>, xo: XO) -> Res {
+    let cfg = zhm_config(target, &mut c.rng)?; let b = lib_build(&mut c.rng, kind);
+    c.input_str("hasher", &format!("lib:{} {b:?}", LIB_KINDS[kind])); c.input_str("config", &format!("{:?}/{:?} cap={} lf={}", cfg.hash_strategy, cfg.storage_strategy, cfg.initial_capacity, cfg.load_factor));
+    c.input("keys", &strkeys_bytes); c.input("ops", &encode_ops(&ops));
+    let f = analyze(&ops); note_facts(c, &f, ops.len());
+    // input-only tags: sentinel hash values among the inserted keys
+    { let (mut z, mut mx) = (false, false); for &ki in &f.inserted { let h = b.hash_one(&pool[ki as usize]); if h == 0 { z = true; } if h == u64::MAX { mx = true; } } if z { c.tag("hash_zero"); } if mx { c.tag("hash_max"); } }
+    tombstone_tags(c, &f, xo.iter);
+    let m = match catch(|| ZiporaHashMap::<K, u64, LibBuild>::with_config_and_hasher(cfg, b)) { Ok(Ok(m)) => m, Ok(Err(e)) => return Err(bad("ctor_err", format!("with_config_and_hasher: {e}"))), Err(p) => return Err(bad(&p.class(), format!("constructor panicked at {}: {}", p.loc, p.msg))) };
+    exec_x(c, &mut Zhm(m), &pool, &ops, &xo, &mut no_xop, &|m, md| emp(m.0.is_empty(), md.is_empty()))
+}
+
+fn sorted<T: Ord>(mut v: Vec<T>) -> Vec<T> { v.sort(); v }
+
+fn run_gap(ctx: &mut Ctx) {
+    let small_only = SMALL_ONLY.with(|d| d.get());
+    let per = if small_only { 1 } else { ctx.n(8, 60) as u64 };
+    let fams: [&Fam; 4] = [&X_FAM, &CHURN, &TINY, &CLEARS];
+
+    // ---------------- ZiporaHashMap (Standard storage) with the library's own hash functions as BuildHasher + is_empty
+    for &(target, standard, strkeys) in ZHM_TARGETS {
+        if !standard || matches!(target, "zhm/with_capacity" | "zhm/std_cap_nonpow2" | "zhm/pool_x") { continue; }
+        for (kind, kname) in LIB_KINDS.iter().enumerate() {
+            let g = format!("libhash_{kname}:mixed");
+            for idx in 0..per {
+                ctx.case(target, &g, idx, |c| {
+                    let thorough = c.tier == crate::ctx::Tier::Thorough;
+                    let fam = fams[c.rng.usize_below(4)]; c.input_str("family", fam.name);
+                    // bucket extractors with few bits make every key collide: keep those histories small
+                    let nk = if kind >= 13 { nkeys_for(&mut c.rng, fam).min(24) } else { nkeys_for(&mut c.rng, fam) };
+                    let xo = XO { iter: true, len_each: true };
+                    if strkeys { let pool = str_pool(&mut c.rng, nk); let ops = gen_ops(&mut c.rng, fam, nk, thorough); let kb = str_bytes(&pool); zhm_lib_case(c, target, kind, kb, pool, ops, xo) }
+                    else { let pool = u64_pool(&mut c.rng, nk); let ops = gen_ops(&mut c.rng, fam, nk, thorough); let kb = u64_bytes(&pool); zhm_lib_case(c, target, kind, kb, pool, ops, xo) }
+                });
+            }
+        }
+    }
+
+    // ---------------- GoldHashMap::new() + is_empty / load_factor after every operation
+    for (target, t) in [("gold32/new", 0), ("gold64/new", 1)] {
+        for &hmode in AK_MODES { for fam in [&X_FAM, &X_SMALL] {
+            let g = format!("x_{}:{}", hmode.0, fam.name);
+            for idx in 0..per {
+                ctx.case(target, &g, idx, |c| {
+                    let (pool, ops, _f, xo) = prep_ak(c, fam, hmode, None);
+                    fn go<L: LinkType>(c: &mut Case, pool: &[AK], ops: &[Op], xo: &XO) -> Res {
+                        let m = GoldHashMap::<AK, u64, L>::new(); let cap0 = m.capacity();
+                        let mut g = Gold { m, default_fast: false, cap0, rehash_seen: std::cell::Cell::new(0) };
+                        exec_x(c, &mut g, pool, ops, xo, &mut |_c, g: &mut Gold<L>, _md, _p, i| { g.extra((i % 4) as u8).map_err(|e| bad("maintenance_err", e)) },
+                            &|g, md| { let lf = g.m.load_factor(); if !lf.is_finite() || lf < 0.0 { return Err(format!("load_factor()={lf}")); } emp(g.m.is_empty(), md.is_empty()) })
+                    }
+                    if t == 0 { go::<u32>(c, &pool, &ops, &xo) } else { go::<u64>(c, &pool, &ops, &xo) }
+                });
+            }
+        } }
+    }
+
+    // ---------------- SmallMap::is_empty on both sides of the inline -> large transition
+    for &hmode in AK_MODES {
+        let g = format!("x_{}:xsmall", hmode.0);
+        for idx in 0..per * 2 {
+            ctx.case("smallmap/promote", &g, idx, |c| {
+                let (pool, ops, f, xo) = prep_ak(c, &X_SMALL, hmode, None);
+                if f.large_seen { c.tag("promoted"); if f.upd_after_rm { c.tag("upd_after_rm"); } } if f.check_while_large { c.tag("iter_while_large"); } c.note("promoted", f.large_seen as u64);
+                exec_x(c, &mut Small(SmallMap::new()), &pool, &ops, &xo, &mut no_xop, &|m, md| emp(m.0.is_empty(), md.is_empty()))
+            });
+        }
+    }
+
+    // ---------------- GoldHashIdx: insert_batch == the sequence of inserts, get_batch == the sequence of gets, is_empty
+    for target in ["goldidx/new", "goldidx/with_pool"] {
+        for &hmode in AK_MODES { for fam in [&X_FAM, &X_SMALL] {
+            let g = format!("x_{}:{}", hmode.0, fam.name);
+            for idx in 0..per {
+                ctx.case(target, &g, idx, |c| {
+                    let (pool, ops, _f, xo) = prep_ak(c, fam, hmode, None);
+                    let m = if target == "goldidx/new" { let cap = *c.rng.pick(&[0usize, 1, 16, 17, 100]); c.input_str("cap", &cap.to_string()); if c.rng.bool() { GoldHashIdx::new() } else { GoldHashIdx::with_capacity(cap) } }
+                        else { let p = SecureMemoryPool::new(SecurePoolConfig::small_secure()).map_err(|e| bad("ctor_err", format!("SecureMemoryPool::new: {e}")))?; GoldHashIdx::with_pool(*c.rng.pick(&[0usize, 16, 64]), p) };
+                    let mut r = c.rng.fork(); let mut val = 1u64 << 32;
+                    exec_x(c, &mut Idx(m), &pool, &ops, &XO { iter: false, len_each: xo.len_each }, &mut |c, m: &mut Idx, md, pool, _i| {
+                        match r.below(4) {
+                            0 | 1 => { // batch insert, duplicates inside the batch allowed (the last one wins, as for the sequence of single inserts)
+                                let n = *r.pick(&[0usize, 1, 2, 5, 17, 40]); let mut items = Vec::with_capacity(n);
+                                for _ in 0..n { val += 1; items.push((pool[r.usize_below(pool.len())].clone(), val)); }
+                                let desc = format!("{:?}", items.iter().map(|(k, v)| (k.id, *v)).collect::<Vec<_>>());
+                                m.0.insert_batch(items.clone()).map_err(|e| bad("insert_batch_err", format!("insert_batch({desc}) returned Err({e}) with {} live keys", md.len())))?;
+                                for (k, v) in items { md.insert(k, v); }
+                                c.ev(1); let l = m.0.len(); ensure!(l == md.len(), "insert_batch_len", "after insert_batch({desc}): len()={l} want {}", md.len());
+                                for k in pool { let got = m.0.get(k).copied(); let want = md.get(k).copied(); c.ev(1); if let Some(cl) = cmp_get("insert_batch", got, want) { return Err(bad(&cl, format!("after insert_batch({desc}): get({k:?})={got:?} want {want:?}"))); } }
+                            }
+                            2 => { let n = *r.pick(&[0usize, 1, 3, 9, 30]); let keys: Vec<AK> = (0..n).map(|_| pool[r.usize_below(pool.len())].clone()).collect();
+                                let got: Vec<Option<u64>> = m.0.get_batch(&keys).into_iter().map(|o| o.copied()).collect(); c.ev(1);
+                                ensure!(got.len() == keys.len(), "get_batch_len", "get_batch of {} keys returned {} results", keys.len(), got.len());
+                                for (k, g) in keys.iter().zip(&got) { let want = md.get(k).copied(); c.ev(1); if let Some(cl) = cmp_get("get_batch", *g, want) { return Err(bad(&cl, format!("get_batch: result for {k:?} is {g:?} want {want:?}"))); } } }
+                            _ => { m.0.shrink_to_fit(); let _ = m.0.memory_usage(); }
+                        }
+                        Ok(())
+                    }, &|m, md| emp(m.0.is_empty(), md.is_empty()))
+                });
+            }
+        } }
+    }
+
+    // ---------------- EasyHashMap: default-value constructors, get_or_default / get_or_insert / get_or_insert_with / extend / set_auto_grow / is_empty
+    for target in ["easy/with_default", "easy/default_builder"] {
+        for &hmode in AK_MODES { for fam in [&X_FAM, &X_SMALL] {
+            let g = format!("x_{}:{}", hmode.0, fam.name);
+            for idx in 0..per {
+                ctx.case(target, &g, idx, |c| {
+                    let (pool, ops, f, _xo) = prep_ak(c, fam, hmode, None);
+                    if f.upd_after_rm { c.tag("upd_after_rm"); } if f.rm_then_len12 { c.tag("rm_before_growth"); }
+                    let dflt = 0xD0D0_0000u64 + c.rng.below(1000);
+                    let m = if target == "easy/with_default" { EasyHashMap::<AK, u64>::with_default(dflt) } else {
+                        let cap = *c.rng.pick(&[0usize, 16, 64, 128]); let lf = *c.rng.pick(&[0.1f64, 0.5, 0.75, 0.95]); let ag = c.rng.chance(3, 4);
+                        c.input_str("builder", &format!("default cap={cap} lf={lf} auto_grow={ag}"));
+                        if c.rng.bool() { EasyHashMap::<AK, u64>::with_default_value(dflt).with_capacity(cap).max_load_factor(lf).auto_grow(ag).build() } else { EasyHashMap::<AK, u64>::initial_capacity(cap).with_default(dflt).max_load_factor(lf).auto_grow(ag).build() } };
+                    let mut r = c.rng.fork(); let mut val = 1u64 << 32;
+                    exec_x(c, &mut Easy(m), &pool, &ops, &XO { iter: false, len_each: true }, &mut |c, m: &mut Easy, md, pool, _i| {
+                        let k = pool[r.usize_below(pool.len())].clone(); val += 1;
+                        match r.below(6) {
+                            0 => { let got = *m.0.get_or_default(&k); let want = md.get(&k).copied().unwrap_or(dflt); c.ev(1);
+                                ensure!(got == want, if md.contains_key(&k) { "get_or_default_live" } else { "get_or_default_absent" }, "get_or_default({k:?})={got} want {want} (default {dflt})"); }
+                            1 | 2 => { let with = r.bool(); let write = r.bool(); let want = md.get(&k).copied().unwrap_or(val); let called = std::cell::Cell::new(false);
+                                let name = if with { "get_or_insert_with" } else { "get_or_insert" };
+                                let slot = if with { m.0.get_or_insert_with(k.clone(), || { called.set(true); val }) } else { m.0.get_or_insert(k.clone(), val) };
+                                let slot = slot.map_err(|e| bad("get_or_insert_err", format!("{name}({k:?},{val}) returned Err({e})")))?;
+                                let got = *slot; if write { *slot = val + 7; }
+                                c.ev(1); ensure!(got == want, if md.contains_key(&k) { "get_or_insert_live" } else { "get_or_insert_absent" }, "{name}({k:?},{val}) yields {got} want {want}");
+                                if with { ensure!(called.get() != md.contains_key(&k), "get_or_insert_with_call", "{name}({k:?}): closure called={} but key live={}", called.get(), md.contains_key(&k)); }
+                                md.entry(k.clone()).or_insert(val); if write { md.insert(k.clone(), val + 7); }
+                                let back = m.0.get(&k).copied(); c.ev(1); if let Some(cl) = cmp_get("get_or_insert_then_get", back, md.get(&k).copied()) { return Err(bad(&cl, format!("after {name}({k:?},{val}) write={write}: get()={back:?} want {:?}", md.get(&k)))); } }
+                            3 | 4 => { let n = *r.pick(&[0usize, 1, 3, 12, 40]); let mut items = Vec::with_capacity(n); for _ in 0..n { val += 1; items.push((pool[r.usize_below(pool.len())].clone(), val)); }
+                                let desc = format!("{:?}", items.iter().map(|(k, v)| (k.id, *v)).collect::<Vec<_>>());
+                                m.0.extend(items.clone()); for (k, v) in items { md.insert(k, v); }
+                                for k in pool { let got = m.0.get(k).copied(); let want = md.get(k).copied(); c.ev(1); if let Some(cl) = cmp_get("extend", got, want) { return Err(bad(&cl, format!("after extend({desc}): get({k:?})={got:?} want {want:?}"))); } } }
+                            _ => { m.0.set_auto_grow(r.bool()); }
+                        }
+                        Ok(())
+                    }, &|m, md| emp(m.0.is_empty(), md.is_empty()))
+                });
+            }
+        } }
+    }
+
+    // ---------------- HashStrMap: FastStr entry points, is_interned, values(), clear_all, is_empty
+    for fam in [&X_FAM, &X_SMALL] {
+        let g = format!("x:{}", fam.name);
+        for idx in 0..per * 3 {
+            ctx.case("hashstr", &g, idx, |c| {
+                let thorough = c.tier == crate::ctx::Tier::Thorough;
+                let nk = nkeys_for(&mut c.rng, fam); let pool = str_pool(&mut c.rng, nk); let ops = gen_ops(&mut c.rng, fam, nk, thorough);
+                c.input("keys", &str_bytes(&pool)); c.input("ops", &encode_ops(&ops)); let f = analyze(&ops); note_facts(c, &f, ops.len());
+                let m = if c.rng.bool() { HashStrMap::new() } else { HashStrMap::with_capacity(c.rng.usize_below(100)) };
+                let mut r = c.rng.fork(); let mut val = 1u64 << 32;
+                exec_x(c, &mut HStr(m, false), &pool, &ops, &XO { iter: true, len_each: true }, &mut |c, m: &mut HStr, md, pool, _i| {
+                    let k = pool[r.usize_below(pool.len())].clone(); val += 1;
+                    match r.below(8) {
+                        0 | 1 | 2 => { let got = m.0.insert_fast_str(FastStr::from_string(&k), val).map_err(|e| bad("insert_err", format!("insert_fast_str({k:?}) returned Err({e})")))?; let want = md.insert(k.clone(), val); c.ev(1);
+                            ensure!(got == want, if want.is_some() { "insert_fast_str_ret_update" } else { "insert_fast_str_ret_new" }, "insert_fast_str({k:?},{val}) returned {got:?} want {want:?}");
+                            let back = m.0.get(&k).copied(); ensure!(back == Some(val), "insert_fast_str_lost", "after insert_fast_str({k:?},{val}): get()={back:?}"); }
+                        3 | 4 => { let got = m.0.get_by_fast_str(&FastStr::new(k.as_bytes())).copied(); let want = md.get(&k).copied(); c.ev(2);
+                            if let Some(cl) = cmp_get("get_by_fast_str", got, want) { return Err(bad(&cl, format!("get_by_fast_str({k:?})={got:?} want {want:?}"))); }
+                            let it = m.0.is_interned(&k); ensure!(it == want.is_some(), "is_interned", "is_interned({k:?})={it} but the key is {}", if want.is_some() { "live" } else { "absent" }); }
+                        5 | 6 => { let got = sorted(m.0.values().copied().collect::<Vec<u64>>()); let want = sorted(md.values().copied().collect::<Vec<u64>>()); c.ev(1); c.note("iter_checks", 1);
+                            ensure!(got == want, "values_mismatch", "values() yields {} values, {} live; first difference at sorted position {:?}", got.len(), want.len(), got.iter().zip(&want).position(|(a, b)| a != b)); }
+                        _ => { m.0.clear_all(); md.clear(); let l = m.0.len(); ensure!(l == 0, "clear_all_len", "after clear_all: len()={l}"); ensure!(m.0.iter().next().is_none(), "clear_all_iter", "after clear_all: iter() still yields an entry"); }
+                    }
+                    Ok(())
+                }, &|m, md| emp(m.0.is_empty(), md.is_empty()))
+            });
+        }
+    }
+
+    // ---------------- hash helpers: determinism (h(k) must be a function of k), documented ranges, convenience == dispatcher
+    for idx in 0..ctx.n(20, 100) as u64 {
+        ctx.case("hashfn", "determinism", idx, |c| {
+            let n = c.rng.urange(50, 200); let mut seed_in = vec![];
+            for _ in 0..n {
+                let kind = c.rng.usize_below(LIB_KINDS.len()); let b = lib_build(&mut c.rng, kind);
+                let nw = *c.rng.pick(&[0usize, 1, 1, 2, 3, 9]); let words: Vec<u64> = (0..nw).map(|_| match c.rng.below(4) { 0 => 0, 1 => u64::MAX, 2 => c.rng.below(256), _ => c.rng.next() }).collect();
+                let bytes: Vec<u8> = if c.rng.bool() { words.iter().flat_map(|w| w.to_le_bytes()).collect() } else { let l = *c.rng.pick(&[0usize, 1, 7, 8, 9, 16, 31, 100]); gen::key(&mut c.rng, 0).into_iter().cycle().take(l).collect() };
+                seed_in.push(kind as u8); seed_in.extend_from_slice(&bytes);
+                let h1 = crate::ctx::nopanic("library hash function", || lib_hash(&b, &bytes, &words))?; let h2 = lib_hash(&b, &bytes.clone(), &words.clone()); c.ev(1);
+                ensure!(h1 == h2, "hash_nondeterministic", "{} ({b:?}) of words {words:?} / {} bytes returned {h1:#x} then {h2:#x}", LIB_KINDS[kind], bytes.len());
+                if kind >= 13 { c.ev(1); ensure!(b.bits >= 32 || h1 < (1u64 << b.bits), "bucket_out_of_range", "{}(hash, bits={}) = {h1} is not below 2^{}", LIB_KINDS[kind], b.bits, b.bits); }
+            }
+            c.input("calls", &seed_in); c.set_nontrivial(true);
+            // convenience wrappers == the global dispatcher, specialised == the general function they are documented to wrap
+            for _ in 0..40 {
+                let h = c.rng.next(); let v = if c.rng.bool() { c.rng.next() } else { c.rng.below(3) }; let bits = c.rng.urange(1, 31) as u32; let d = get_global_bmi2_dispatcher(); c.ev(4);
+                ensure!(hash_combine_with_bmi2(h, v) == d.hash_combine_optimal(h, v), "convenience_mismatch", "hash_combine_with_bmi2({h:#x},{v:#x}) != dispatcher.hash_combine_optimal");
+                ensure!(extract_bucket_with_bmi2(h, bits) == d.extract_bucket_optimal(h, bits), "convenience_mismatch", "extract_bucket_with_bmi2({h:#x},{bits}) != dispatcher.extract_bucket_optimal");
+                let e = extract_hash_bucket_bmi2(h, bits); ensure!((e as u64) < (1u64 << bits), "bucket_out_of_range", "extract_hash_bucket_bmi2({h:#x},{bits})={e} is not below 2^{bits}");
+                let s = String::from_utf8_lossy(&gen::key(&mut c.rng, (v % 6) as u32)).into_owned();
+                ensure!(hash_with_bmi2(s.as_bytes()) == d.hash_with_acceleration(s.as_bytes()), "convenience_mismatch", "hash_with_bmi2({s:?}) != dispatcher.hash_with_acceleration");
+                ensure!(specialized::hash_string_bmi2(&s) == fast_string_hash_bmi2(&s, 0), "convenience_mismatch", "specialized::hash_string_bmi2({s:?}) != fast_string_hash_bmi2(.., 0)");
+                let _ = d.tier();
+            }
+            // sizing helpers: documented as "next power of 2 that can accommodate the desired capacity" / "next optimal capacity" (growth)
+            for _ in 0..40 {
+                let want = match c.rng.below(3) { 0 => c.rng.urange(0, 64), 1 => c.rng.urange(0, 1 << 20), _ => (1usize << c.rng.urange(0, 30)) + c.rng.urange(0, 2) - 1 };
+                let bc = crate::ctx::nopanic("optimal_bucket_count", || optimal_bucket_count(want))?; c.ev(2);
+                ensure!(bc.is_power_of_two() && bc >= want, "bucket_count", "optimal_bucket_count({want})={bc}: not a power of two that accommodates {want} elements");
+                let nx = crate::ctx::nopanic("golden_ratio_next_size", || golden_ratio_next_size(want))?;
+                ensure!(nx > want, "next_size_not_larger", "golden_ratio_next_size({want})={nx} does not grow");
+            }
+            // probing helper: a returned slot must be a free one of the 64, a full mask has no slot
+            for _ in 0..40 {
+                let mask = match c.rng.below(4) { 0 => u64::MAX, 1 => u64::MAX ^ (1u64 << c.rng.below(64)), 2 => c.rng.next() | c.rng.next(), _ => c.rng.next() }; let h = c.rng.next();
+                for pt in [ProbeType::Linear, ProbeType::Quadratic, ProbeType::DoubleHash] {
+                    let got = crate::ctx::nopanic("bmi2_collision_resolution", || bmi2_collision_resolution(h, mask, pt))?; c.ev(1);
+                    let got2 = get_global_bmi2_dispatcher().resolve_collision_optimal(h, mask, pt);
+                    ensure!(got == got2, "convenience_mismatch", "resolve_collision_optimal({h:#x},{mask:#x},{pt:?})={got2:?} but bmi2_collision_resolution={got:?}");
+                    match got { Some(p) => ensure!(p < 64 && mask & (1u64 << p) == 0, "probe_occupied_slot", "bmi2_collision_resolution({h:#x},{mask:#x},{pt:?})=Some({p}): slot is occupied / out of range"),
+                        None => { if mask != u64::MAX { c.note("probe_none_with_free_slot", 1); } } }
+                    if mask == u64::MAX { ensure!(got.is_none(), "probe_full_mask", "bmi2_collision_resolution({h:#x}, full mask, {pt:?})={got:?}"); }
+                }
+            }
+            // CacheAligned<T> is a transparent wrapper
+            { let x = c.rng.next(); let mut a = CacheAligned::new(x); ensure!(*a.get() == x, "cache_aligned", "CacheAligned::get"); *a.get_mut() = !x; ensure!(a.into_inner() == !x, "cache_aligned", "CacheAligned::into_inner after get_mut write"); }
+            Ok(())
+        });
+    }
 }
